@@ -16,16 +16,16 @@ PENDING = 'check under construction in this session (DESIGN.md section 6); not y
 CHECKS = {
  'C03': ('exploration', 'seeded deterministic simulation: delivery-schedule search with differential oracle + over-read bound from a reference matcher',
          'sampled scenarios x inputs; per input the refill boundary is swept over every offset; a clean batch is evidence, not proof',
-         'trusts: clang/ASan, glibc stdio for the stdio deliveries, the reference matcher (only for the over-read bound). The read(2) path (-Cr) is not driven.', '6 C03'),
+         'trusts: clang/ASan, glibc stdio for the stdio deliveries, the reference matcher (only for the over-read bound). Back ends: C non-reentrant, C reentrant, c99; deliveries: user routine, fread, getc, read(2) of %option read, yy_scan_*; the C++ lexer is not part of this check (no stdio or in-memory deliveries exist for it).', '6 C03'),
  'C04': ('exploration', 'seeded deterministic simulation: relabelling-twin differential (NUL or a high byte swapped with an ordinary byte) under identical plans, plus -7/-8 differential',
          'sampled scenario pairs x plans incl. the refill-boundary sweep over every offset; logs compared modulo the byte permutation',
          'trusts: that a byte permutation fixing newline preserves the meaning of a rule set (true for the generated pattern language); read-request counts are not compared (C03)', '6 C04'),
  'C05': ('exploration', 'seeded deterministic simulation: API-history search checked against an executable reference model (integer + list)',
          'sampled histories of begin/push/pop/top mixed with restart, buffer switches, yywrap and EOF; model compared after every event',
-         'trusts: the harness op interpreter; rule activation per condition (part B of the design) is not yet claimed', '6 C05'),
+         'trusts: the harness op interpreter; rule activation per condition (part B of the design) is not claimed. Back ends: C non-reentrant, C reentrant, c99, C++ lexer class; histories include yylex_destroy + reuse', '6 C05'),
  'C08': ('exploration', 'seeded deterministic simulation: in-action op histories x delivery schedules, checked event by event against a byte-stream reference model',
          'sampled scenarios x plans; conservation of the byte stream and the text seen by every action are checked on every run',
-         'trusts: the reference matcher (disagreements that persist with no history are attributed to C01 and not reported); op scripts restricted to documented combinations', '6 C08'),
+         'trusts: the reference matcher (disagreements that persist with no history are attributed to C01 and not reported); op scripts restricted to documented combinations (DESIGN 11.3). Back ends: C non-reentrant, C reentrant, c99, C++ lexer class', '6 C08'),
  'C09': ('exploration', 'seeded deterministic simulation: conservation invariant on yylineno over the recorded history (self-relative oracle)',
          'sampled scenarios x plans; invariant evaluated at every action entry, op and yylex return',
          'trusts: only the event log; no tokeniser model is involved', '6 C09'),
@@ -33,20 +33,20 @@ CHECKS = {
          'sampled scenarios x histories over create/scan_*/switch/push/pop/flush/delete/yylex with 3-30 sources; per-buffer unread text, BOL and line number are tracked and compared at every event',
          'trusts: the reference matcher with triage; only histories the manual permits are generated', '6 C11'),
  'C12': ('exploration', 'seeded deterministic simulation: real pthreads under a baton scheduler (one seed = one interleaving), solo-versus-interleaved differential per instance; ThreadSanitizer free-running supplement',
-         'sampled scenarios (several instances of one reentrant scanner; differently-prefixed scanners incl. a non-reentrant one linked together) x plans x hand-over schedules',
-         'trusts: the baton hands over only at simulator callbacks, so state shared between two callbacks is visible only to the supplementary TSan mode (runtime monitoring, gated 3/3); C++ and c99 flavours not driven', '6 C12'),
+         'sampled scenarios (several instances of one reentrant C / c99 / C++ scanner; 2-3 differently-prefixed scanners, non-reentrant ones included, linked together) x plans x hand-over schedules',
+         'trusts: the baton hands over only at simulator callbacks (input, allocator - where the yyextra handed to the allocator is checked against the running instance -, yywrap, actions), so state shared between two callbacks is visible only to the supplementary free-running ThreadSanitizer mode (runtime monitoring, confirmed 3 of 6). Instances of reentrant C, c99 and C++ lexers; several non-reentrant scanners with different prefixes per program; at most one c99 scanner per program (known finding K-c99-link-clash)', '6 C12'),
  'C13': ('exploration', 'seeded deterministic simulation under ASan/UBSan with an allocation ledger, junk-fill differential and destroy/reuse differential',
          'sampled scenarios x plans from the union of the other workloads; every allocator call is ledgered; a third of the plans are re-run with another fill pattern and (non-reentrant) against a fresh process',
          'trusts: ASan/UBSan; uninitialised reads are visible only when they change behaviour under a different fill pattern (MSan unusable here)', '6 C13'),
  'C14': ('fault_enumeration', 'deterministic fault injection: every allocator call and every stdio read index of each sampled run is failed in turn',
          'per sampled (scenario, plan): exhaustive over the A allocator calls (k-th fails) and the R reads (EIO / EINTR at index j) of the fault-free run',
-         'trusts: faults are injected at the yyalloc seam and at the fopencookie read callback (not real signals); read(2) path and C++ new[] not driven', '6 C14'),
+         'trusts: faults are injected at the yyalloc seam, at the fopencookie read callback and at the redefined read() of %option read scanners (not real signals); C++ operator new is not failed', '6 C14'),
  'C15': ('fault_enumeration', 'deterministic fault injection on a simulated tables FILE*: truncation at every byte offset, every magic-number bit flip, read errors, read chunking; serialized-versus-in-code differential; independent format parser',
          'per sampled scenario: exhaustive truncation offsets for files up to 4 KiB (stratified incl. all table boundaries beyond), all 32 magic bit flips, 40 read-error offsets; round trip on every plan; every concatenation order of 2-3 sets',
          'trusts: the format parser written from the manual; bit flips outside the magic number are injected only for the verify build (payload bytes)', '6 C15'),
  'C10': ('exploration', 'seeded deterministic simulation: EOF instants, source chains, yywrap policies and post-termination calls, checked against the stream reference model',
          'sampled scenarios x plans; the end-of-source instant is placed by the read schedule, premature end indications included',
-         'trusts: the reference matcher with triage; a pending yymore prefix across a source change is relaxed (manual silent)', '6 C10'),
+         'trusts: the reference matcher with triage; a yymore() pending when yylex reaches the end of a source: %pointer drops the kept text, %array keeps it (what the implementation defines since fix 8b25f4d; the manual is silent)', '6 C10'),
  'C16': ('fault_enumeration', 'deterministic fault injection on the flex process tree: size limits at enumerated byte offsets per output file, /dev/full, unwritable paths, closing stdout reader, dying m4; seeded mutation of input files under a sanitizer build',
          'per (input, option set): write limits N in {0,1,4095,4096,4097,|F|-1,...} on each output file; corpus = the repo\'s .l files and 17 seeded mutators; outcome compared with the fault-free run of the same command',
          'trusts: RLIMIT_FSIZE / /dev/full as disk-full model (mid-file EIO on a regular file cannot be produced); ASan/UBSan build of flex; generated C is not compiled (C02)', '6 C16'),
